@@ -33,6 +33,17 @@ class GenomeWorld:
 			path = self.qdir / rel
 			dbutil.write_fasta(path, contigs, gz=name.endswith('.gz'), width=rng.choice([60, 70, None]))
 			self.genomes.append({'path': path, 'rel': rel, 'contigs': contigs, 'name': name})
+		# namesakes: for every genome a *different* genome under the same file name in another directory, and in a decoy
+		# working directory under the same relative path (a command must never pick these up unless asked to)
+		self.decoy_cwd = self.sc.subdir('decoy_cwd')
+		(self.decoy_cwd / 'sub').mkdir()
+		self.namesake_dir = self.sc.subdir('namesakes')
+		(self.namesake_dir / 'sub').mkdir()
+		for g in self.genomes:
+			other = dbutil.mutate(rng, dbutil.rand_dna(rng, base_len), 0.0)
+			for d in (self.decoy_cwd, self.namesake_dir):
+				dbutil.write_fasta(d / g['rel'], [other], gz=g['name'].endswith('.gz'))
+			g['namesake'] = {'path': self.namesake_dir / g['rel'], 'rel': g['rel'], 'contigs': [other], 'name': g['name']}
 		self._sig = {}
 
 	def sig_of(self, g, spec=None):
